@@ -288,7 +288,7 @@ func init() {
 
 	// kill: kill commands followed by yank, through the real Shell (C16)
 	killAlpha := []rune{'a', 'b', ' ', ' ', '\n', '-', '.', '"', 0xe9, 0x4e2d}
-	killCmds := []string{"kill-line", "backward-kill-line", "backward-kill-word"}
+	killCmds := []string{"kill-line", "backward-kill-line", "backward-kill-word", "kill-whole-line"}
 	register(&model{name: "kill", gen: func(rng *rand.Rand) (string, string, string) {
 		l := randRunes(rng, killAlpha, 8)
 		cp := rng.Intn(len(l) + 1)
@@ -309,5 +309,35 @@ func init() {
 			return fmt.Sprintf("ok %s %d %s %s", natsR([]rune(l1)), c1, natsR([]rune(k)), natsR([]rune(l2)))
 		})
 		return line, res, cmd
+	}})
+
+	// killr: kill-region on a fixed range or on a pending mark, then yank (C16)
+	register(&model{name: "killr", gen: func(rng *rand.Rand) (string, string, string) {
+		l := randRunes(rng, killAlpha, 8)
+		cp := rng.Intn(len(l) + 1)
+		kind := []string{"range", "mark"}[rng.Intn(2)]
+		a := rng.Intn(len(l)+3) - 1
+		b := rng.Intn(len(l)+3) - 1
+		line := fmt.Sprintf("killr %s %d %s %d %d", natsR(l), cp, kind, a, b)
+		res := guard(func() string {
+			rl := readline.NewShell()
+			rl.Line().Set(append([]rune{}, l...)...)
+			rl.Cursor().Set(cp)
+			if kind == "range" {
+				rl.Selection().MarkRange(a, b)
+			} else {
+				rl.Selection().Mark(a)
+			}
+			core.MatchedKeys(rl.Keys, []byte{23})
+			rl.Keymap.Commands()["kill-region"]()
+			rl.Cursor().CheckAppend()
+			l1 := string(*rl.Line())
+			c1 := rl.Cursor().Pos()
+			k := string(rl.Buffers.GetKill())
+			rl.Keymap.Commands()["yank"]()
+			l2 := string(*rl.Line())
+			return fmt.Sprintf("ok %s %d %s %s", natsR([]rune(l1)), c1, natsR([]rune(k)), natsR([]rune(l2)))
+		})
+		return line, res, kind
 	}})
 }
